@@ -551,11 +551,31 @@ class Item:
 
 # --------------------------------------------------------------------------- generic decide loop
 
+class PostCtx:
+    """second argument world of a post-condition: conc is None while proving (outcome symbolic) and the concrete
+    input dict while judging a real outcome during replay (then a Python-twin oracle may be used)."""
+
+    def __init__(self, conc=None, path=None, model=None):
+        self.conc, self.path, self.model = conc, path, model
+
+
+def _call_post(post, kind, val, ctx):
+    import inspect
+    try:
+        n = len(inspect.signature(post).parameters)
+    except (TypeError, ValueError):
+        n = 2
+    r = post(kind, val, ctx) if n >= 3 else post(kind, val)
+    if isinstance(r, SymBool):
+        r = r.t
+    return r
+
+
 def decide(item, label, fn_sym, call_real, conc_inputs, post, maxpaths=20000, cmp=None, validate=True):
     """Explore fn_sym; validate every path against the real code; prove post on every path.
 
-    post(kind, value) -> z3 Bool | bool.  It is evaluated on the symbolic outcome for the proof and again on the
-    real, concrete outcome when a counterexample is replayed (kind 'exc' gets the exception *type name*).
+    post(kind, value[, ctx]) -> z3 Bool | bool.  It is evaluated on the symbolic outcome for the proof and again on
+    the real, concrete outcome when a counterexample is replayed (kind 'exc' gets the exception *type name*).
     """
     paths = item.explore(fn_sym, maxpaths=maxpaths)
     if not paths:
@@ -564,16 +584,12 @@ def decide(item, label, fn_sym, call_real, conc_inputs, post, maxpaths=20000, cm
         if validate:
             item.validate(p, call_real, conc_inputs, cmp)
         kind, val = p.kind, p.value
-        claim = post(kind, type(val).__name__ if kind == "exc" else val)
-        if isinstance(claim, SymBool):
-            claim = claim.t
+        claim = _call_post(post, kind, type(val).__name__ if kind == "exc" else val, PostCtx(None, p))
 
         def replay(model, _p=p):
             conc = conc_inputs(model)
             real = call_real(conc)
-            c2 = post(real[0], real[1])
-            if isinstance(c2, SymBool):
-                c2 = c2.t
+            c2 = _call_post(post, real[0], real[1], PostCtx(conc, _p, model))
             if z3.is_expr(c2):
                 c2 = z3.is_true(ev_term(model, c2))
             return (not c2), conc, "real outcome %r violates the property" % (jsonable(real[:2]),)
